@@ -30,7 +30,7 @@ def gen_envs(rng, n_envs, quick=True):
         env["flags"] = rng.weighted([([], 18), (["--profile"], 2), (["--no-pb"], 2), (["--verbose"], 1)])
         # environment variables
         env["vars"] = rng.weighted([({}, 10), ({"RUST_BACKTRACE": "1"}, 1), ({"TMPDIR": "/dev/shm"}, 1), ({"PWD": "/nonexistent/elsewhere"}, 1),
-                                    ({"CLICOLOR_FORCE": "1"}, 1), ({"SIMWORLD_CLOCK": "freeze"}, 2)])
+                                    ({"CLICOLOR_FORCE": "1"}, 1), ({"SIMWORLD_CLOCK": "tick"}, 2)])
         # the command is started in a directory that has been removed since (getcwd fails); files are named absolutely
         if rng.chance(1, 12):
             env["start"] = "gone"
